@@ -436,7 +436,10 @@ fn declare(
 			flags: _,
 		} =>
 		{
-			let cname = CString::new(&name.name as &str)?;
+			// Constants are private to the module, so their symbol name is
+			// free to choose. Functions and constants have separate namespaces,
+			// so the name of a constant must not take the symbol of a function.
+			let cname = CString::new(format!(".const.{}", name.name))?;
 			let vartype = value_type.generate(llvm)?;
 			let global =
 				unsafe { LLVMAddGlobal(llvm.module, vartype, cname.as_ptr()) };
